@@ -1,6 +1,11 @@
 """C16 - the Bayesian information criterion matches its definition."""
+import math
+
+import numpy as np
+
 from ticcmon import e2e_check
-from ticcmon.checks import e2e_common as ec
+from ticcmon.checks import common, e2e_common as ec
+from ticcmon.oracles import gauss, metrics
 
 LEVEL = "exploration"
 RULE = ("reported BIC of every completed traced run vs the definition recomputed from the captured final model (runs with one run of labels, "
@@ -13,8 +18,10 @@ PROPS = ("C16",)
 
 
 def plan(tier, seed):
-    specs = ec.plan_e2e(seed, 16, MIX, 160 if tier == "quick" else 1600, nwcap=12 if tier == "quick" else 24)
-    if tier == \"thorough\":
+    specs = ec.plan_e2e(seed, 16, MIX, 140 if tier == "quick" else 1600, nwcap=12 if tier == "quick" else 24)
+    for p, n in enumerate(common.split_counts(200 if tier == "quick" else 3000, 4 if tier == "quick" else 12)):
+        specs.append(dict(name="synth-%d" % p, mode="interp", what="synth", n=n, seed=[seed, 161, p]))
+    if tier == "thorough":
         specs += ec.fixture_specs()
     return specs
 
@@ -23,16 +30,106 @@ def nontrivial(run, I):
     return "b" if I.counts.get("bic_checked", 0) and I.counts.get("rounds", 0) >= 1 else None
 
 
+def build_state(case):
+    """Synthetic final state: SPD MRFs over 14 orders of magnitude of scale, entries straddling the 2e-5 threshold."""
+    from fast_ticc.containers import model_state as ms, arguments
+    rng = np.random.default_rng(case["rng"])
+    nw, W, K, T = case["nw"], case["W"], case["K"], case["T"]
+    pat = case["pattern"]
+    if pat == "one_run":
+        labels = [int(rng.integers(0, K))] * T
+    elif pat == "alternating":
+        labels = [i % K for i in range(T)]
+    elif pat == "unused":
+        used = max(1, K - 1 - int(rng.integers(0, max(1, K - 1))))
+        labels = [int(v) for v in rng.integers(0, used, size=T)]
+    elif pat == "blocks":
+        labels = [min(K - 1, (i * K) // T) for i in range(T)]
+    else:
+        labels = [int(v) for v in rng.integers(0, K, size=T)]
+    args = arguments.UserArguments(0.1, 20, 1.0, 2, 0, K, 1, W, False)
+    st = ms.ModelState.empty_model(args, np.zeros((T, nw)))
+    st.point_labels = labels
+    for c in st.clusters:
+        A = rng.normal(size=(nw, nw)) / math.sqrt(nw)
+        th = (A @ A.T + 0.1 * np.eye(nw)) * case["scale"]
+        if case["straddle"]:
+            # off-diagonal entries just below / just above / exactly at the parameter-count threshold
+            iu = np.triu_indices(nw, 1)
+            pick = rng.random(len(iu[0])) < 0.5
+            vals = rng.choice([2e-5 * (1 - 1e-6), 2e-5 * (1 + 1e-6), 2e-5, -2e-5 * (1 + 1e-3), 1.9e-5, 0.0], size=len(iu[0]))
+            th[iu[0][pick], iu[1][pick]] = vals[pick]
+            th[iu[1][pick], iu[0][pick]] = vals[pick]
+            th[np.diag_indices(nw)] = np.abs(th).sum(axis=1) + 1e-3     # keep it diagonally dominant, hence SPD
+        c.train_inverse = (th + th.T) / 2
+        B = rng.normal(size=(nw, max(1, nw // (1 + int(rng.integers(0, 3))))))
+        c.empirical_covariance = (B @ B.T / nw) * case["cov_scale"]
+        c.stacked_data_mean = np.zeros(nw)
+    return st, labels
+
+
+def check_synth(res, case):
+    from fast_ticc import cluster_metrics as cmx
+    st, labels = build_state(case)
+    ths = [np.array(c.train_inverse, copy=True) for c in st.clusters]
+    covs = [np.array(c.empirical_covariance, copy=True) for c in st.clusters]
+    try:
+        got = float(cmx.bayesian_information_criterion(st))
+    except Exception as e:
+        res.violation("bayesian_information_criterion raised %s: %s (NW=%d scale=%g)" % (type(e).__name__, str(e)[:150], case["nw"], case["scale"]), case)
+        return
+    res.evaluations += 1
+    ref = metrics.bic_def(labels, ths, covs)
+    lds = [float(np.linalg.slogdet(t)[1]) for t in ths]
+    absprod = sum(float(np.sum(np.abs(t) * np.abs(s_.T))) for t, s_ in zip(ths, covs))
+    tol = 1e-9 * (abs(ref) + 2 * sum(abs(v) for v in lds)) + 64 * gauss.EPS * case["nw"] * 2 * absprod + 1e-9
+    res.count("synthetic_states_checked")
+    res.maxi("abs_logdet", int(max(abs(v) for v in lds)))
+    if not np.isfinite(got):
+        res.violation("BIC is %r for positive-definite MRFs (NW=%d, log-determinants %s)" % (got, case["nw"], [round(v) for v in lds][:3]), case)
+    elif abs(got - ref) > tol:
+        res.violation("synthetic final state (NW=%d, pattern %s, straddle=%s): reported BIC %r, definition %r (diff %.3g, tol %.3g)" % (
+            case["nw"], case["pattern"], case["straddle"], got, ref, got - ref, tol), case)
+    for t0, c in zip(ths, st.clusters):
+        if not np.array_equal(t0, c.train_inverse):
+            res.violation("bayesian_information_criterion modified the model", case)
+    if len(set(labels)) >= 2 or case["straddle"]:
+        res.nontriv(common.h(case))
+    if case["straddle"]:
+        res.count("states_straddling_threshold")
+
+
+def run_synth(spec, res):
+    rng = np.random.default_rng(spec["seed"])
+    for i in range(spec["n"]):
+        nw, W = [(1, 1), (2, 1), (5, 5), (12, 3), (40, 10), (100, 10), (200, 10), (6, 2)][int(rng.integers(0, 8))]
+        case = dict(what="synth", rng=[int(v) for v in spec["seed"]] + [i], nw=nw, W=W, K=int(rng.integers(1, 6)), T=int(rng.integers(2, 120)),
+                    pattern=["one_run", "alternating", "unused", "blocks", "random"][int(rng.integers(0, 5))],
+                    scale=float(rng.choice([1e-7, 1e-3, 1.0, 1e3, 1e7])), cov_scale=float(10 ** rng.uniform(-6, 6)),
+                    straddle=bool(rng.random() < 0.4))
+        check_synth(res, case)
+        if i == 0:
+            res.sample(case)
+
+
 def run_shard(spec, res):
-    ec.run_e2e_shard(spec, res, PROPS, nontrivial)
+    if spec["what"] == "synth":
+        run_synth(spec, res)
+    else:
+        ec.run_e2e_shard(spec, res, PROPS, nontrivial)
 
 
 def replay(case, res):
-    e2e_check.replay_case(res, case, PROPS)
+    if case.get("what") == "synth":
+        check_synth(res, case)
+    else:
+        e2e_check.replay_case(res, case, PROPS)
 
 
 def finalize(merged, tier):
     out = {"inconclusive": []}
-    ec.min_counter(merged, out, "bic_checked", 70 if tier == "quick" else 700)
+    ec.min_counter(merged, out, "bic_checked", 60 if tier == "quick" else 700)
+    ec.min_counter(merged, out, "synthetic_states_checked", 150 if tier == "quick" else 2500)
+    ec.min_counter(merged, out, "states_straddling_threshold", 40 if tier == "quick" else 600)
     ec.unexpected(merged, out)
     return out
